@@ -9,6 +9,13 @@
 (* the selector still explores it, unless link-visit-once is on and the    *)
 (* link was seen before; every load spends one unit of the link budget.    *)
 (* The root is loaded by the caller and is never in `seen`.                *)
+(* Alias = TRUE adds one more name, <last node>r: the SAME bytes as the    *)
+(* last node (a leaf) linked under another codec -- another CID, the same  *)
+(* multihash.  It is a block of its own: loaded, counted and written       *)
+(* separately.                                                             *)
+(* opt.dags = 2 (root module's SelectiveCar only): two (root, selector)    *)
+(* pairs, n1 and n2; each is walked with a fresh `seen` and budget, the    *)
+(* loads follow one another and the output is their first occurrences.     *)
 (* opt.miss is a set of nodes whose blocks are absent from the store: a    *)
 (* lenient walker (car get-dag without --strict) skips such a link, a      *)
 (* strict one fails (err).                                                 *)
@@ -25,21 +32,24 @@
 EXTENDS Integers, Sequences, FiniteSets, TLC, SequencesExt, Json
 
 CONSTANTS Nodes,        \* a sequence of node names, in link order (links go rightwards only)
-          MaxKids, Options
+          MaxKids, Options,
+          Alias         \* BOOLEAN
 
 VARIABLES kids, opt
 vars == <<kids, opt>>
 
 N == Len(Nodes)
-After(i) == { Nodes[j] : j \in (i+1)..N }
+AliasName == Nodes[N] \o "r"
+After(i) == { Nodes[j] : j \in (i+1)..N } \cup (IF Alias /\ i < N THEN {AliasName} ELSE {})
 KidSeqs(S, n) == UNION { [1..k -> S] : k \in 0..n }
 
 KidsOf(i) == KidSeqs(After(i), IF i = 1 THEN MaxKids ELSE MaxKids - 1)
 (* one existential per node (never build the set of all DAGs) *)
 Init == /\ opt \in Options
         /\ \E k1 \in KidsOf(1), k2 \in KidsOf(2), k3 \in (IF N >= 3 THEN KidsOf(3) ELSE {<<>>}), k4 \in (IF N >= 4 THEN KidsOf(4) ELSE {<<>>}) :
-              kids = [n \in { Nodes[i] : i \in 1..N } |->
-                        IF n = Nodes[1] THEN k1 ELSE IF n = Nodes[2] THEN k2 ELSE IF N >= 3 /\ n = Nodes[3] THEN k3 ELSE k4]
+              kids = [n \in { Nodes[i] : i \in 1..N } \cup (IF Alias THEN {AliasName} ELSE {}) |->
+                        IF n = Nodes[1] THEN k1 ELSE IF n = Nodes[2] THEN k2 ELSE IF N >= 3 /\ n = Nodes[3] THEN k3
+                        ELSE IF N >= 4 /\ n = Nodes[4] THEN k4 ELSE <<>>]
 Next == UNCHANGED vars
 Spec == Init /\ [][Next]_vars
 
@@ -76,7 +86,13 @@ WalkKids(K, ks, i, level, sel, once, st) ==
             IN WalkKids(K, ks, i + 1, level, sel, once, st2)
 
 Root == Nodes[1]
-Result(K, o) == Walk(K, Root, 0, o.sel, o.once, [loads |-> <<Root>>, seen |-> {}, budget |-> o.budget, err |-> FALSE])
+ResultFrom(K, o, r) == Walk(K, r, 0, o.sel, o.once, [loads |-> <<r>>, seen |-> {}, budget |-> o.budget, err |-> FALSE])
+Dags(o) == IF "dags" \in DOMAIN o /\ o.dags = 2 THEN <<Nodes[1], Nodes[2]>> ELSE <<Root>>
+Result(K, o) ==
+  LET rs == [i \in 1..Len(Dags(o)) |-> ResultFrom(K, o, Dags(o)[i])] IN
+  IF Len(rs) = 1 THEN rs[1]
+  ELSE [loads |-> rs[1].loads \o rs[2].loads, seen |-> rs[1].seen \cup rs[2].seen, budget |-> o.budget,
+        err |-> rs[1].err \/ rs[2].err]
 
 RECURSIVE FirstOcc(_, _)
 FirstOcc(acc, s) == IF s = <<>> THEN acc
@@ -87,10 +103,11 @@ Out(loads) == FirstOcc(<<>>, loads)
 R == Result(kids, opt)
 (* model-level properties *)
 OutHasNoRepeats == \A i, j \in 1..Len(Out(R.loads)) : Out(R.loads)[i] = Out(R.loads)[j] => i = j
-OnceMeansNoRepeatedLoads == opt.once => \A i, j \in 2..Len(R.loads) : R.loads[i] = R.loads[j] => i = j
+OnceMeansNoRepeatedLoads == (opt.once /\ Len(Dags(opt)) = 1) => \A i, j \in 2..Len(R.loads) : R.loads[i] = R.loads[j] => i = j
 (* two-pass writers: counted units = written units  <=>  no load is repeated *)
 SizeAgreement == ~R.err => Len(R.loads) = Len(Out(R.loads))
-BudgetRespected == opt.budget >= 0 => Len(R.loads) - 1 <= opt.budget
+BudgetRespected == opt.budget >= 0 => Len(R.loads) - Len(Dags(opt)) <= opt.budget * Len(Dags(opt))
 
-Emit == PrintT(ToJson([rec |-> "traversal", kids |-> kids, opt |-> opt, loads |-> R.loads, err |-> R.err, out |-> Out(R.loads)]))
+Emit == PrintT(ToJson([rec |-> "traversal", kids |-> kids, opt |-> opt, loads |-> R.loads, err |-> R.err, out |-> Out(R.loads),
+                       dags |-> Dags(opt), alias |-> IF Alias THEN AliasName ELSE ""]))
 =============================================================================
